@@ -8,6 +8,8 @@ structure St where
   /-- channels whose `connect`/`disconnect` currently refuse (fault injection of the harness; empty on
   every history of the unchanged library) -/
   locked : List Nat
+  /-- lists saved by the flow derivation in progress (`t-dagbegin`) -/
+  saved : List (Nat × List Nat) := []
 
 def St.me (s : St) : May := fun c => !s.locked.contains c
 
@@ -35,9 +37,15 @@ def sortNats (l : List Nat) : List Nat := l.foldl (fun acc x => insertSorted x a
 def parseGroup (w : String) : Option (List Nat) :=
   if w = "" then some [] else nats (w.splitOn ",")
 
+/-- same graph, lists stored in an array: keeps the chain of pointwise updates short (run time only) -/
+def compact (s : St) : St :=
+  let n := s.dom.foldl (fun m c => max m (c + 1)) 0
+  let arr : Array (List Nat) := (Array.range n).map s.g.conns
+  { s with g := { s.g with conns := fun c => arr.getD c [] } }
+
 def init : St :=
   { g := { kind := fun _ => .dataIn, owner := fun _ => 0, valid := fun _ _ => true, conns := fun _ => [] },
-    dom := [], locked := [] }
+    dom := [], locked := [], saved := [] }
 
 def step (s : St) (ws : List String) : St × List String :=
   match ws with
@@ -132,6 +140,27 @@ def step (s : St) (ws : List String) : St × List String :=
       let s' := { s with g }
       (s', [showRes r ++ " - " ++ obs s'])
     | _, _ => (s, ["bad-op"])
+  -- replay of the primitive calls an operation outside the modelled alphabet was seen to make: silent
+  | "t-connect" :: a :: bs =>
+    match a.toNat?, nats bs with
+    | some a, some bs => ({ s with g := (connectG allow s.g a bs).1 }, [])
+    | _, _ => (s, ["bad-op"])
+  | "t-disconnect" :: a :: bs =>
+    match a.toNat?, nats bs with
+    | some a, some bs => ({ s with g := (disconnectR s.g a bs).1 }, [])
+    | _, _ => (s, ["bad-op"])
+  | "t-order" :: c :: l =>
+    match c.toNat?, nats l with
+    | some c, some l =>
+      let (g, ok) := reorder s.g c l
+      ({ s with g }, if ok then [] else ["bad-obs"])
+    | _, _ => (s, ["bad-op"])
+  | "t-dagbegin" :: cut =>
+    match nats cut with
+    | some cut => ({ s with saved := savedOf s.g cut }, [])
+    | none => (s, ["bad-op"])
+  | ["t-dagfail"] => ({ s with g := restoreSaved s.g s.saved, saved := [] }, [])
+  | ["t-show"] => let s' := compact s; (s', ["trace " ++ obs s'])
   | "replace" :: pre :: oc :: nc :: ps =>
     -- replace <pre 0|1> <old chans a,b,..> <new chans a,b,..> <pairs my:other ...>
     let parsed : Option (List (Option Nat × Nat)) := ps.mapM fun w =>
@@ -149,4 +178,9 @@ def step (s : St) (ws : List String) : St × List String :=
     | _, _, _, _ => (s, ["bad-op"])
   | _ => (s, ["bad-op"])
 
-def main : IO Unit := Proto.run init step
+/-- compaction after every answered operation -/
+def step' (s : St) (ws : List String) : St × List String :=
+  let (s', out) := step s ws
+  if out.isEmpty then (s', out) else (compact s', out)
+
+def main : IO Unit := Proto.run init step'
